@@ -66,7 +66,7 @@ Definition model_tbi (k : case) : tbi := new_tbi (k_tf k) (unhexp (k_descr k)) (
 
 Definition agrees (k : case) : bool :=
   let f := model_tbi k in
-  match encode_header f with
+  match create f with
   | Panic => (k_create_code k =? 2)%nat
   | Rejected => (k_create_code k =? 1)%nat
   | Ok h =>
@@ -82,12 +82,15 @@ Definition agrees (k : case) : bool :=
 
 (** the guarded theorem's hypothesis *)
 Definition in_domain (k : case) : bool :=
-  creatable (k_tf k) (unhexp (k_descr k)) (k_year k) (mk_dsv (k_dsv k)) (k_rt k) && writes_ok (mk_writes (k_writes k)).
+  schema_dom (k_tf k) (unhexp (k_descr k)) (k_year k) (mk_dsv (k_dsv k)) (k_rt k) && writes_ok (mk_writes (k_writes k)).
 
-(** the property evaluated on the model *)
+(** the property evaluated on the model: creation refused, or the schema preserved *)
 Definition model_preserved (k : case) : bool :=
   let f := model_tbi k in
-  match create_write_reload f (mk_writes (k_writes k)) with
-  | Ok g => tbi_eqb g f
-  | _ => false
+  match create f with
+  | Rejected => true
+  | _ => match create_write_reload f (mk_writes (k_writes k)) with
+         | Ok g => tbi_eqb g f
+         | _ => false
+         end
   end.
